@@ -103,13 +103,13 @@ pub fn run(f: &[&str]) -> String {
                     if &c != v { diffs.push("FromIterator-seq"); }
                 }
                 if let Some(i) = v.as_i64() {
-                    if Value::from(i) != serde_json::to_value(i).unwrap() || (v.is_u64() && Value::from(i as u64) != *v) { diffs.push("From-int"); }
+                    if Value::from(i) != serde_json::to_value(i).unwrap() || (!ap && v.is_u64() && Value::from(i as u64) != *v) { diffs.push("From-int"); }
                 }
                 if let Some(u) = v.as_u64() {
-                    if Value::from(u) != serde_json::to_value(u).unwrap() || Value::from(u) != *v { diffs.push("From-u64"); }
+                    if Value::from(u) != serde_json::to_value(u).unwrap() || (!ap && Value::from(u) != *v) { diffs.push("From-u64"); }
                 }
                 if let Some(x) = v.as_f64() {
-                    if v.is_f64() && (Value::from(x) != serde_json::to_value(x).unwrap() || Value::from(x) != *v) { diffs.push("From-f64"); }
+                    if v.is_f64() && (Value::from(x) != serde_json::to_value(x).unwrap() || (!ap && Value::from(x) != *v)) { diffs.push("From-f64"); }
                     let y = x as f32;
                     if Value::from(y) != serde_json::to_value(y).unwrap() { diffs.push("From-f32"); }
                 }
